@@ -264,6 +264,11 @@ fn run_img(rest: &str, dir: &str) -> String {
     std::fs::create_dir_all(dir).unwrap();
     for f in parts[1].split_whitespace() {
         let (id, data) = f.split_once(':').unwrap();
+        if id == "LOCK" {
+            // the lock file as the crashed owner left it
+            std::fs::write(format!("{}/LOCK", dir), unhex(data)).unwrap();
+            continue;
+        }
         let id: u64 = id.parse().unwrap();
         std::fs::write(format!("{}/{}", dir, chunk_file_name(id)), unhex(data)).unwrap();
     }
